@@ -126,7 +126,9 @@ PROP = dict(
         "The float build's PCM clause (1e-4 of full scale; largest seen 1e-6) is asserted only for streams in which the decoder never conceals: no change of coding "
         "mode and no frame of <= 1 byte; concealment (pitch search + recursive filters in float) is not bounded by a fixed small number. Final ranges are compared always.",
         "Known deviations excluded as observable classes: F21 (celt_fir_sse4_1 saturates at -32768, celt_fir_c at -32767) and F22 (silk_NSQ_del_dec_avx2 differs from "
-        "the C code when its reconstructed output saturates; upstream hides this from OPUS_CHECK_ASM by switching formula under that define).",
+        "the C code when the quantiser state has run away and its reconstructed output saturates: 64-bit product in silk_sar_round_smulww - switched to the C "
+        "formula only under OPUS_CHECK_ASM - and a wrapping rounding shift; in the OPUS_CHECK_ASM builds the kernel's own self-check abort is intercepted for exactly "
+        "that class and the encoder continues with the portable result).",
     ],
 )
 
